@@ -781,9 +781,17 @@ func (c *Chain) drawTxs(t *rapid.T, version string, d *core.StateDiff, tags map[
 	n := rapid.IntRange(0, c.Opt.MaxTxs).Draw(t, "ntx")
 	txs := make([]core.Transaction, n)
 	rs := make([]*core.TransactionReceipt, n)
+	// a quarter of the blocks carry transactions but no event at all (event count 0 with receipts present)
+	eventless := !c.Opt.DenseEvents && n > 0 && rapid.IntRange(0, 3).Draw(t, "eventlessBlock") == 0
+	if eventless {
+		tags["eventless-block-with-txs"] = true
+	}
 	for i := range txs {
 		txs[i] = c.DrawTx(t, version)
 		rs[i] = c.DrawReceipt(t, txs[i])
+		if eventless {
+			rs[i].Events = []*core.Event{}
+		}
 		if _, ok := txs[i].(*core.L1HandlerTransaction); ok {
 			tags["l1handler"] = true
 		}
